@@ -34,6 +34,7 @@ def main():
         if a.replay:
             rc = mod.replay(ctx, json.load(open(a.replay)))
             return rc
+        ctx.clear_replays()
         b = ctx.coq_build(f"Props/{a.pid}.v")
         ctx.coverage.update({
             "obligations": b["obligations"], "discharged": b["discharged"],
